@@ -123,7 +123,7 @@ PROPS = {
         "assumptions": ["node paths and keys are ASCII in the generated cases"],
     },
     "C08": {
-        "lean_props": ["ZarrsModel.Props.C08", "ZarrsModel.Props.C08Fs", "ZarrsModel.Props.C08Async"],
+        "lean_props": ["ZarrsModel.Props.C08", "ZarrsModel.Props.C08Fs", "ZarrsModel.Props.C08Async", "ZarrsModel.Props.C08Multi"],
         "harness": "c08",
         "rule": "random operation sequences (4..30 ops; thorough: up to 200) over a hierarchy-shaped universe of 12 keys / 9 prefixes with values of 0..12 bytes and "
                 "in- and out-of-bounds ranges of all three forms, on 11 stores: memory, filesystem (with and without direct I/O, on disk under /verif/work), "
